@@ -10,7 +10,7 @@ SPEC = {
             "back; q = options through ToQuery/url/FromQuery; qraw = arbitrary queries (replication override, expire-in, meta- keys, bad "
             "numbers) through FromQuery; st/straw/pt/md = status masks, raw status strings, pin types, modes through their names; mp/js = "
             "reflect-built values of 21 record types through ugorji msgpack and encoding/json; eq = a pin against a one-field mutation of "
-            "itself through Equals; plus a malformed-bytes stream (>= 20000 inputs per decoder family, counted under fuzz:*). "
+            "itself through Equals; wire = protobuf messages against the byte-level model (the model writer must produce the library's bytes, the model reader must read them back); plus a malformed-bytes stream (>= 20000 inputs per decoder family, counted under fuzz:*). "
             "non-trivial = the value sets at least two optional fields (pb), any list/map/expiry (q), a multi-bit mask (st), every "
             "mp/js/eq/pbmsg case; distinct = distinct canonical JSON of the input",
     "codes": {1: "model_eq_impl (C08 codecs)",
@@ -37,12 +37,12 @@ SPEC = {
         "tools/gen/c08_status.go and c08_tags.go (syntactic translators of the constant table and the struct tags; embedded structs promoted as Go does)",
         "the malformed-input stream is fuzzing (a test, not a theorem): absence of panics is sampled",
     ],
-    "level_text": "24 theorems (Props/C08.v, all closed) over Gallina transcriptions of ProtoMarshal/ProtoUnmarshal/convertPinType, ToQuery/FromQuery with "
+    "level_text": "26 theorems (Props/C08.v, all closed) over Gallina transcriptions of ProtoMarshal/ProtoUnmarshal/convertPinType, ToQuery/FromQuery with "
                   "real string split/join and decimal printing/parsing, TrackerStatus.String/FromString over the constant table regenerated from the "
                   "source, the msgpack/JSON field maps over the struct-tag table regenerated from the source (one generic round-trip theorem for every "
-                  "well-formed tag table, instantiated on the current one), and Pin.Equals/PinOptions.Equals; each transcription is compared with the "
+                  "well-formed tag table, instantiated on the current one), Pin.Equals/PinOptions.Equals, and (growth item) a byte-level proto3 writer/reader of the stored pin; each transcription is compared with the "
                   "real code on generated values at every run and the implementation's own output is checked against the boolean form of the property",
-    "level_note": "byte-level encoders are trusted libraries; models tied to code by differential testing (generator-bounded) and two translators; "
+    "level_note": "byte-level msgpack/JSON/url encoders are trusted libraries (the protobuf wire format of the stored pin is modelled and proved as a growth item); models tied to code by differential testing (generator-bounded) and two translators; "
                   "S19 (origins undecodable from msgpack/JSON) is a finding: full statement refuted, partial statement proved; decoder totality on raw "
                   "bytes is fuzzed, not proved",
     "assumptions": ["decoding into a fresh value (the reuse of one LogOp by the Raft FSM is modelled in C01)",
